@@ -839,6 +839,8 @@ fn gen_sampler_props(rng: &mut Rng) -> Vec<Prop> {
 }
 
 pub struct WideOpts {
+    /// probability (percent) that a resource is forced to be a cbuffer block
+    pub cbuffer_percent: u64,
     /// never add a second overload of an entry point (the HLSL exporter renames overloads: C15's subject)
     pub no_overloads: bool,
     /// allow `T g[];` (rejected by the Metal back end)
@@ -856,7 +858,7 @@ pub struct WideOpts {
 
 impl Default for WideOpts {
     fn default() -> Self {
-        WideOpts { no_overloads: false, unsized_arrays: true, bad_sampler_percent: 8, rich_percent: 40, allow_mesh: true, odd_percent: 50, max_pipes: 4 }
+        WideOpts { cbuffer_percent: 0, no_overloads: false, unsized_arrays: true, bad_sampler_percent: 8, rich_percent: 40, allow_mesh: true, odd_percent: 50, max_pipes: 4 }
     }
 }
 
@@ -872,7 +874,10 @@ pub fn gen_wide(rng: &mut Rng, o: &WideOpts) -> WProgram {
     let nres = rng.below(7) as usize;
     let mut res_nodes: Vec<usize> = Vec::new();
     for i in 0..nres {
-        let (kind, _) = *rng.pick(WRES_KINDS);
+        let (mut kind, _) = *rng.pick(WRES_KINDS);
+        if o.cbuffer_percent > 0 && rng.below(100) < o.cbuffer_percent {
+            kind = "cbuffer";
+        }
         let is_sampler = kind.starts_with("Sampler");
         let static_sampler = is_sampler && rng.chance(1, 2);
         let can_array = kind != "cbuffer" && !static_sampler && kind != "ConstantBuffer";
